@@ -27,13 +27,21 @@ pub fn stack_sprite(v: &[usize]) -> File {
 }
 
 pub fn stack_sprite_on(v: &[usize], cw: u16, chh: u16) -> File {
-    let fmt = Fmt::Rgba;
+    stack_sprite_fmt(v, cw, chh, &Fmt::Rgba)
+}
+
+pub fn stack_sprite_fmt(v: &[usize], cw: u16, chh: u16, fmt: &Fmt) -> File {
+    let fmt = fmt.clone();
     let n = v.len() / 8;
     let mut f = gen::file(cw, chh, &fmt, &[100, 100]);
+    if matches!(fmt, Fmt::Indexed(_)) {
+        // entries with alpha below 255 as well; the transparent index is in use
+        f.frames[0].push(new_palette(0, pal_entries(8, 3)));
+    }
     // shared tileset for tilemap layers: 1x1 tiles, tile 0 transparent
     let uses_tilemap = (0..n).any(|i| v[i * 8 + 3] == 3);
     if uses_tilemap {
-        f.frames[0].push(Body::Tileset(tileset(1, 5, 1, 1, tile_pixels(&fmt, 5, 1, 1, 77, (0, 0)), "ts")));
+        f.frames[0].push(Body::Tileset(tileset(1, 5, 1, 1, tile_pixels(&fmt, 5, 1, 1, 77, (0, 7)), "ts")));
     }
     let mut layer_index = Vec::new();
     let mut idx = 0u16;
@@ -75,7 +83,7 @@ pub fn stack_sprite_on(v: &[usize], cw: u16, chh: u16) -> File {
             let tiles: Vec<u32> = (0..w as u32 * h as u32).map(|k| (k + i as u32) % 5).collect();
             tm_cel(li, x, y, op, w, h, tiles)
         } else {
-            zcel(li, x, y, op, w, h, pixels(&fmt, w as usize, h as usize, 10 + i as u32, (0, 0)), 6)
+            zcel(li, x, y, op, w, h, pixels(&fmt, w as usize, h as usize, 10 + i as u32, (0, 7)), 6)
         };
         if c[4] == 2 {
             // the real cel lives in frame 1; frame 0 links to it
@@ -123,6 +131,27 @@ pub fn run(ctx: &Ctx) -> i32 {
         });
         if n == 2 {
             ctx.sample(json!({"family": fam, "case": describe(&vecs[vecs.len() / 2]), "meaning": "coordinates that differ from the default stack; frame and cel images of both frames compared with the reference compositor"}));
+        }
+    }
+    // the same balls for grayscale and indexed sprites (the composition works on the decoded RGBA pixels)
+    for (fname, fmt) in [("gray", Fmt::Gray), ("indexed", Fmt::Indexed(0)), ("indexed-t5", Fmt::Indexed(5))] {
+        for n in 1..=3usize {
+            let k = if n == 3 { 1 } else if thorough { 3 } else { 2 };
+            let fam = format!("stack-{}-n{}-k{}", fname, n, k);
+            if !ctx.wants_family(&fam) {
+                continue;
+            }
+            let dims: Vec<usize> = (0..n).flat_map(|_| LAYER_DIMS.iter().copied()).collect();
+            let vecs = ball_vec(&dims, k);
+            ctx.family(&fam, vecs.len() as u64, &format!("{}-layer stacks of a {} sprite (palette of 8 entries incl. translucent ones, transparent index in use) on the 3x2 canvas: all vectors within Hamming distance {} of the default over the same per-layer coordinates", n, fname, k), true);
+            vecs.par_iter().for_each(|v| {
+                let case = || describe(v);
+                if !ctx.wants(&fam, &case) {
+                    return;
+                }
+                let f = stack_sprite_fmt(v, CW, CH, &fmt);
+                conform(ctx, &fam, &case, &f, &want);
+            });
         }
     }
     // the same balls on a portrait canvas (2 wide, 3 tall) for 1 and 2 layers
